@@ -14,9 +14,11 @@
                 l:<n> node*n | t:<n> … | e:<n> …   list / tuple / set
                 d:<n> (key node)*n                 dict;  key = ks:<hex utf-8> | ko:<label>
                 x:<code>:<rawlabel>:<convlabel>:<0|1>   msgpack extension value
-  Reply:  ok <rendering> <effects>   |   err <Enum> <effects>
+  Reply:  ok <rendering> <effects> src=same|src=DIFF   |   err <Enum> <effects> src=…
+          (src: the transcription of the source, Gen/C04Src.lean, evaluated on the literal tree agrees with the model)
 -/
 import PyroModel.Classes
+import PyroModel.Gen.C04Src
 import Driver.Util
 
 open Pyro Pyro.Classes Driver
@@ -103,6 +105,23 @@ def parseReg (s : String) : Option (List Str) :=
 
 def callExtHook : Bool := Pyro.Gen.C04.msgpackCallExtHook
 
+/-- `self.dict_to_class` of a serializer over the TRANSCRIBED dict_to_class (serpent's float special case stays the model's) -/
+def dictEntryS (E : Env) (ser : Ser) (fuel : Nat) (ks : List Key) (vs : List Val) : M Val :=
+  let isFloat := match lookup kClass ks vs with
+    | some (.str t) => t == tFloat
+    | _ => false
+  if ser == .serpent && isFloat then dictEntry E ser fuel ks vs
+  else Pyro.Gen.C04Src.dictToClassFix E fuel ks vs
+
+/-- the transcription of recreate_classes / dict_to_class / make_exception (Gen/C04Src.lean) evaluated on the literal tree
+    next to the model: same outcome and same effect log?  (proved for all inputs in PyroProps/C04Src.lean; evaluated here so
+    that the translator and the `py…` vocabulary are exercised on every correspondence case) -/
+def srcAgrees (E : Env) (s : Ser) (v : Val) : Bool :=
+  let fuel := fuelFor v
+  let a := Pyro.Gen.C04Src.recreateFix (dictEntryS E s fuel) (depth v + 1) v
+  let b := recreate E s fuel v
+  outcomeL a == outcomeL b && a.2 == b.2
+
 def step : List String → String
   | op :: ser :: reg :: spec :: toks =>
     match parseSer ser, parseReg reg, parseVal toks with
@@ -116,9 +135,10 @@ def step : List String → String
       | none => "bad-op"
       | some (res, log) =>
         let fx := if log.isEmpty then "-" else ",".intercalate (log.map renderEffect)
+        let src := if srcAgrees E s v then " src=same" else " src=DIFF"
         match res with
-        | .ok w => "ok " ++ String.ofList (renderL w) ++ " " ++ fx
-        | .error e => "err " ++ String.ofList (renderErrL e) ++ " " ++ fx
+        | .ok w => "ok " ++ String.ofList (renderL w) ++ " " ++ fx ++ src
+        | .error e => "err " ++ String.ofList (renderErrL e) ++ " " ++ fx ++ src
     | _, _, _ => "bad-line"
   | _ => "bad-line"
 
